@@ -14,6 +14,7 @@
 #endif
 #include "vcommon.h"
 #include <math.h>
+#include <stdarg.h>
 #include "silk/VAD.c"
 #include "tuning_parameters.h"
 
@@ -68,7 +69,8 @@ static void gen_pick(gen *g, vrng *r)
 static void perturb(silk_VAD_state *v, vrng *r)
 {
    int b;
-   switch (vbelow(r, 6)) {
+   switch (vbelow(r, 7)) {
+   case 6: for (b = 0; b < 4; b++) { v->inv_NL[b] = 1 + (int)vbelow(r, 300); v->NL[b] = silk_min(silk_int32_MAX / v->inv_NL[b], 0x00FFFFFF); } break;   /* NL at its clamp */
    case 0: for (b = 0; b < 4; b++) { v->inv_NL[b] = 1 + (int)(vnext(r) % 2147483647u); v->NL[b] = silk_min(silk_int32_MAX / v->inv_NL[b], 0x00FFFFFF); } break;
    case 1: v->counter = vrange(r, 15, 1000); break;
    case 2: for (b = 0; b < 4; b++) v->NrgRatioSmth_Q8[b] = 128 + (int)(vnext(r) % 2147483000u); break;
